@@ -569,7 +569,16 @@ class TaskScenario(ScenarioData):
                     successors = self._getSuccessors()
                     for successor in successors:
                         succ_start = successor.get("start", self.scenarioIdx)
-                        if succ_start and succ_start < latest_end:
+                        if not succ_start:
+                            continue
+                        # Leave room for the gap the successor asked for on this edge
+                        for dep in successor.get("depends", self.scenarioIdx) or []:
+                            if isinstance(dep, dict) and dep.get("task") is self.property and dep.get("gapduration"):
+                                from datetime import timedelta
+
+                                gap_hours = self._parse_duration(dep.get("gapduration"), calendar=True)
+                                succ_start = succ_start - timedelta(hours=gap_hours)
+                        if succ_start < latest_end:
                             latest_end = succ_start
 
                     end_date = latest_end
